@@ -151,3 +151,52 @@ func (p *Prog) aliasIn(pk interface{}, info *types.Info, holder string, root ast
 		return true
 	})
 }
+
+// receiverRole: the name under which the receiver of a method of these types is rendered by Str and in
+// fact keys, whatever it is called in the source (see SetRole): rules written against `st.scope`,
+// `l.pos`, `t.lex`, `a.args`, `s.cache` keep matching after a receiver was renamed.
+var receiverRole = map[string]string{"Runtime": "st", "lexer": "l", "Template": "t", "Arguments": "a", "Set": "s"}
+
+func (p *Prog) canonReceivers() {
+	for _, f := range p.Fns {
+		if f.Decl == nil || f.Sig == nil || f.Sig.Recv() == nil || f.Pkg != p.Jet {
+			continue
+		}
+		n := NamedOf(f.Sig.Recv().Type())
+		if n == nil {
+			continue
+		}
+		if role := receiverRole[n.Obj().Name()]; role != "" && f.Sig.Recv().Name() != "" && f.Sig.Recv().Name() != "_" {
+			SetRole(f.Info(), f.Decl, f.Sig.Recv(), role)
+		}
+	}
+	// plain functions that take the object as their (only) parameter of that type: lexer state functions
+	// `func lexText(l *lexer) stateFn`, built-ins `func(a Arguments) reflect.Value`
+	for _, f := range p.Fns {
+		if f.Sig == nil || f.Sig.Recv() != nil || f.Pkg != p.Jet || f.Body == nil {
+			continue
+		}
+		var root ast.Node = f.Body
+		if f.Decl != nil {
+			root = f.Decl
+		} else if f.Lit != nil {
+			root = f.Lit
+		}
+		seen := map[string]int{}
+		for i := 0; i < f.Sig.Params().Len(); i++ {
+			if n := NamedOf(f.Sig.Params().At(i).Type()); n != nil {
+				seen[n.Obj().Name()]++
+			}
+		}
+		for i := 0; i < f.Sig.Params().Len(); i++ {
+			v := f.Sig.Params().At(i)
+			n := NamedOf(v.Type())
+			if n == nil || v.Name() == "" || v.Name() == "_" || n.Obj().Pkg() != p.Jet.Types {
+				continue
+			}
+			if role := receiverRole[n.Obj().Name()]; role != "" && seen[n.Obj().Name()] == 1 {
+				SetRole(f.Info(), root, v, role)
+			}
+		}
+	}
+}
